@@ -282,6 +282,42 @@ def hold_jobs(rng, tier, mk_terms, add):
 EAGER_SHAPES = ["fl", "mfl", "ol", "ofl", "lo", "lfm", "lfl", "lfo"]     # one chain per eager (materialising) site
 
 
+def mixed_tables(rng, p):
+    """tables that let most elements through but reject / drop / fan out some: every composed closure
+    has both outcomes to get right"""
+    for o in p["ops"]:
+        if o["k"] == "filter":
+            t = [1] * V
+            for x in rng.sample(range(V), rng.choice([1, 2])):
+                t[x] = 0
+            o["t"] = t
+        elif o["k"] == "fmap":
+            t = [rng.randrange(V) for _ in range(V)]
+            for x in rng.sample(range(V), rng.choice([1, 2])):
+                t[x] = -1
+            o["t"] = t
+        elif o["k"] == "flat":
+            o["tt"] = [[rng.randrange(V) for _ in range(rng.choice([0, 1, 1, 2, 3]))] for _ in range(V)]
+    return p
+
+
+def transition_jobs(rng, tier, mk_terms, add, nt1=False):
+    """Every (computation type, transformation) pair of the builder - 8 x 4 composed-closure / eager sites -
+    reached by a shortest chain, several programs each, with tables that exercise both outcomes of every stage."""
+    fam = shapes_by_family(2, by_type=True)
+    for ty in sorted(fam):
+        base = min(fam[ty], key=len)
+        for op in "mflo":
+            sh = base + op
+            for rep in range(3 if tier == "quick" else 12):
+                src = rng.choice(("vec", "iter", "iterx"))
+                p = gen_prog(rng, src=src, shape=sh, n=rng.choice([8, 13, 24]), nt=(1 if nt1 else rng.choice([2, 3])),
+                             cs=rng.choice([("cs", 1), ("cs", 2), ("cs", 3), None]))
+                mixed_tables(rng, p)
+                p["term"] = mk_terms[rep % len(mk_terms)](rng, src, sh)
+                add(norm(p), "free" if nt1 else "rand")
+
+
 def eager_site_jobs(rng, tier, mk_terms, add):
     """Chains through each of the eight eager sites, several schedules each: what the materialised
     intermediate looks like (order, completeness) only shows when several workers share the first run."""
@@ -418,6 +454,7 @@ def jobs_for(prop, tier, seed):
         jobs.append(mk_job(len(jobs) + 1, p, mode or mode_mix(rng), rng, **kw))
 
     if prop == "C01":
+        transition_jobs(rng, tier, [lambda r, s_, sh: collect_term(r, s_, sh)], add)
         eager_site_jobs(rng, tier, [lambda r, s_, sh: collect_term(r, s_, sh)], add)
         hold_jobs(rng, tier, [lambda r, s_, sh: collect_term(r, s_, sh)], add)
         slow_source_jobs(rng, tier, [lambda r, s_, sh: collect_term(r, s_, sh)], add)
@@ -438,6 +475,7 @@ def jobs_for(prop, tier, seed):
         for _ in range(n):
             add(with_term(rng, find_term, sizes=(0, 1, 2, 5, 8, 13, 24, 40, 64)))
     elif prop == "C03":
+        transition_jobs(rng, tier, [lambda r, s_, sh: {"k": "reduce", "op": r.choice(["add", "xor", "min", "max"])}], add)
         hold_jobs(rng, tier, [lambda r, s_, sh: {"k": "reduce", "op": r.choice(["add", "xor", "min", "max"])}, reduce_term], add)
         slow_source_jobs(rng, tier, [lambda r, s_, sh: {"k": "reduce", "op": r.choice(["add", "xor", "min", "max"])}, reduce_term], add)
         lag_jobs(rng, tier, [lambda r, s_, sh: {"k": "reduce", "op": r.choice(["add", "xor", "min", "max"])}], add)
@@ -446,6 +484,7 @@ def jobs_for(prop, tier, seed):
         for _ in range(n):
             add(with_term(rng, reduce_term))
     elif prop == "C04":
+        transition_jobs(rng, tier, [lambda r, s_, sh: {"k": "count"}, lambda r, s_, sh: {"k": "for_each"}], add)
         hold_jobs(rng, tier, [lambda r, s_, sh: {"k": "count"}, lambda r, s_, sh: {"k": "for_each"}], add)
         slow_source_jobs(rng, tier, [lambda r, s_, sh: {"k": "count"}, lambda r, s_, sh: {"k": "for_each"}], add)
         lag_jobs(rng, tier, [lambda r, s_, sh: {"k": "count"}, lambda r, s_, sh: {"k": "for_each"}], add)
@@ -454,6 +493,7 @@ def jobs_for(prop, tier, seed):
         for _ in range(n):
             add(with_term(rng, lambda r, s, sh: {"k": r.choice(["count", "for_each"])}))
     elif prop == "C05":
+        transition_jobs(rng, tier, [lambda r, s_, sh: any_term(r, s_, sh), lambda r, s_, sh: {"k": "count"}, lambda r, s_, sh: collect_term(r, s_, sh)], add)
         eager_site_jobs(rng, tier, [lambda r, s_, sh: any_term(r, s_, sh)], add)
         hold_jobs(rng, tier, [lambda r, s_, sh: any_term(r, s_, sh)], add)
         slow_source_jobs(rng, tier, [lambda r, s_, sh: any_term(r, s_, sh)], add)
@@ -487,6 +527,7 @@ def jobs_for(prop, tier, seed):
             p["term"] = t
             add(norm(p))
     elif prop == "C07":
+        transition_jobs(rng, tier, [lambda r, s_, sh: {"k": "collect_x"}], add)
         eager_site_jobs(rng, tier, [lambda r, s_, sh: {"k": "collect_x"}], add)
         hold_jobs(rng, tier, [lambda r, s_, sh: {"k": "collect_x"}], add)
         slow_source_jobs(rng, tier, [lambda r, s_, sh: {"k": "collect_x"}], add)
@@ -514,6 +555,7 @@ def jobs_for(prop, tier, seed):
             add(with_term(rng, lambda r, s, sh: any_term(r, s, sh), nt=nt,
                           sizes=(0, 1, 2, 3, 5, 8, 13, 24, 40, 64)))
     elif prop == "C09":
+        transition_jobs(rng, tier, [lambda r, s_, sh: any_term(r, s_, sh, ordered=True)], add, nt1=True)
         matrix(rng, tier, [lambda r, s_, sh: any_term(r, s_, sh, ordered=True), lambda r, s_, sh: reduce_term(r, s_, sh, ordered=True)], add, nt1=True)
         for _ in range(n):
             p = with_term(rng, lambda r, s, sh: any_term(r, s, sh, ordered=True), nt=1)
@@ -578,6 +620,7 @@ def jobs_for(prop, tier, seed):
             p["term"] = {"k": "none" if big else rng.choice(["count", "collect_vec", "first", "none"])}
             add(norm(p), "free")
     elif prop == "C13":
+        transition_jobs(rng, tier, [lambda r, s_, sh: any_term(r, s_, sh)], add)
         hold_jobs(rng, tier, [lambda r, s_, sh: any_term(r, s_, sh)], add)
         slow_source_jobs(rng, tier, [lambda r, s_, sh: any_term(r, s_, sh)], add)
         lag_jobs(rng, tier, [lambda r, s_, sh: any_term(r, s_, sh)], add)
